@@ -44,9 +44,11 @@ LEVEL_TEXT = (
 )
 LEVEL_NOTE = (
     "partial: statement-level interleaving inside one flush is not explored (SQLite admits a single writer; the model's "
-    "step is one session operation); not modelled: INSERT/row switch, version_id_generator=False with manually set "
-    "versions, post_update, joined-table inheritance, autoflush, primary-key changes, ORM-enabled bulk UPDATE/DELETE, "
-    "server-side generation without RETURNING (refresh SELECT). Isolation of PostgreSQL/MariaDB is not modelled."
+    "step is one session operation); the model sees ONE versioned row per object (two data columns): the three-level "
+    "joined-table mapping is tied to it through the joined row and the root-table statements only, with sane rowcounts; "
+    "not modelled: INSERT/row switch, version_id_generator=False with manually set versions, post_update, SQL-expression "
+    "values, autoflush, primary-key changes, ORM-enabled bulk UPDATE/DELETE, server-side generation without RETURNING "
+    "(refresh SELECT). Isolation of PostgreSQL/MariaDB is not modelled."
 )
 TECHNIQUE = "Coq invariant proof over an interleaving model (induction over histories) + exhaustive small-scope interleaving correspondence on a shared SQLite file"
 ANCHORS = [
